@@ -1662,3 +1662,112 @@ Proof.
         rewrite Se. split; reflexivity.
       * rewrite Hres in Ge. discriminate.
 Qed.
+
+(** * 9. What a command-line occurrence stores: the given values, or the missing-value default *)
+
+Lemma fm_get_entry_or_insert_same {V} k (v0 : V) f (l : list (id * V)) :
+  fm_get k (fm_entry_or_insert k v0 f l) = Some (f (opt_default v0 (fm_get k l))).
+Proof.
+  unfold fm_entry_or_insert, fm_contains. destruct (fm_get k l) as [v|] eqn:E; cbn [is_some opt_default].
+  - rewrite fm_get_update, beq_refl, E. reflexivity.
+  - rewrite fm_get_app, E. cbn. rewrite beq_refl. reflexivity.
+Qed.
+
+Lemma start_custom_arg_cl_entry c a m m2 :
+  find_group c (a_id a) = None -> start_custom_arg c a SCmdLine m = ROk m2 ->
+  exists e gs, fm_get (a_id a) (mt_args m2) = Some e /\ m_raw e = gs ++ [[]] /\ m_source e = Some SCmdLine.
+Proof.
+  intros Hg H. unfold start_custom_arg in H. cbn [src_explicit] in H.
+  change (fold_left (group_step a SCmdLine) (groups_for_arg c (a_id a))
+            (ROk (start_custom_arg_m (remove_overrides c a m) a SCmdLine)) = ROk m2) in H.
+  apply group_fold_spec in H. destruct H as [Hf _].
+  rewrite Hf.
+  - unfold start_custom_arg_m. cbn. rewrite fm_get_entry_or_insert_same.
+    eexists. eexists. split; [reflexivity|]. split; [reflexivity|]. apply new_group_cl.
+  - destruct (mem_id (a_id a) (groups_for_arg c (a_id a))) eqn:Em; [|reflexivity].
+    apply in_groups_for_arg in Em. contradiction.
+Qed.
+
+(** For [Set]/[Append] arguments: the last value group of the entry after a command-line
+    occurrence is the (delimited) list [react_vals] selected — by [default_missing_iff] the given
+    values when there are any, the missing-value default exactly when there are none *)
+Theorem react_cmdline_values c idn a raw ti st st' pr :
+  find_group c (a_id a) = None ->
+  a_get_action a = ASet \/ a_get_action a = AAppend ->
+  react_core c idn SCmdLine a raw ti st = ROk (st', pr) ->
+  exists e vs, fm_get (a_id a) (mt_args (mt st')) = Some e /\ m_source e = Some SCmdLine
+    /\ delimit c a (fst (react_vals a raw ti)) (snd (react_vals a raw ti)) = Some vs
+    /\ last (m_raw e) [] = vs.
+Proof.
+  intros Hg Hact H. rewrite react_core_unfold in H. cbn [is_cmdline] in H.
+  destruct (verify_num_args _ _ _ _); [|discriminate|discriminate]. cbn [rbind] in H.
+  unfold react_tail in H. destruct (delimit c a _ _) as [vs|] eqn:Ed; [|discriminate]. cbn [expect rbind] in H.
+  assert (Hstore : forall m1 (sx : ps),
+    (do m2 <- start_custom_arg c a SCmdLine m1;
+     do st' <- push_arg_values c a vs (sx <| mt := m2 |>); ROk (st', PRValuesDone)) = ROk (st', pr) ->
+    exists e, fm_get (a_id a) (mt_args (mt st')) = Some e /\ m_source e = Some SCmdLine /\ last (m_raw e) [] = vs).
+  { intros m1 sx Hq.
+    destruct (start_custom_arg c a SCmdLine m1) as [m2| |] eqn:E1; [|discriminate|discriminate]. cbn [rbind] in Hq.
+    destruct (push_arg_values c a vs _) as [s2| |] eqn:E2; [|discriminate|discriminate]. cbn [rbind] in Hq.
+    inversion Hq; subst s2. destruct (start_custom_arg_cl_entry c a m1 m2 Hg E1) as [e0 [gs [G0 [R0 S0]]]].
+    apply push_arg_values_spec in E2. destruct E2 as [_ [_ [_ [_ [_ He]]]]].
+    destruct (He e0 gs [] G0 R0) as [e' [G' [S' [R' _]]]].
+    exists e'. split; [exact G'|]. split; [congruence|]. rewrite R'. cbn [app]. apply last_last. }
+  destruct Hact as [Ha|Ha]; rewrite Ha in H.
+  - match type of H with context [mt_remove (mt ?S) ?I] => destruct (mt_remove (mt S) I) as [m1 removed] end.
+    destruct (removed && _); [discriminate|].
+    destruct (Hstore _ _ H) as [e [G [S L]]]. exists e, vs. repeat split; assumption.
+  - destruct (Hstore _ _ H) as [e [G [S L]]]. exists e, vs. repeat split; assumption.
+Qed.
+
+(** * 10. Non-vacuity and the order dependence of conditional defaults (DESIGN 7-P) *)
+
+Definition ex_a : arg := (arg_new [97]) <| a_long := Some [97] |> <| a_action := Some ASet |> <| a_default := [[100]] |>.
+Definition ex_b : arg := (arg_new [98]) <| a_long := Some [98] |> <| a_action := Some ASet |>
+                           <| a_default_ifs := [([97], PIsPresent, Some [120])] |>.
+Definition ex_e : arg := (arg_new [101]) <| a_long := Some [101] |> <| a_action := Some ASet |>
+                           <| a_default := [[100]] |> <| a_env := Some [118] |>.
+Definition ex_cmd (args : list arg) : cmd := build_self ((cmd_new [112]) <| c_args := args |>).
+
+Definition entry_summary (r : res ps) (i : id) : option (option src * list (list bytes)) :=
+  match r with
+  | ROk st => opt_map (fun e => (m_source e, m_raw e)) (fm_get i (mt_args (mt st)))
+  | _ => None end.
+
+(** hypotheses of [precedence]/[source_honest] are satisfiable; command line > env > default on one argument *)
+Example ex_ids_distinct : ids_distinct (ex_cmd [ex_a; ex_b; ex_e]).
+Proof.
+  split.
+  - vm_compute.
+    repeat (constructor; [intros H; cbn in H; repeat (destruct H as [H|H]; [discriminate H|]); exact H|]).
+    constructor.
+  - intros a _. unfold find_group.
+    assert (E : c_groups (ex_cmd [ex_a; ex_b; ex_e]) = []) by (vm_compute; reflexivity).
+    rewrite E. reflexivity.
+Qed.
+Example ex_env_beats_default :
+  entry_summary (get_matches_with 2 (ex_cmd [ex_e]) [] ps_new) [101] = Some (Some SEnv, [[[118]]]).
+Proof. vm_compute. reflexivity. Qed.
+Example ex_cmdline_beats_env :
+  entry_summary (get_matches_with 2 (ex_cmd [ex_e]) [[45;45;101]; [99]] ps_new) [101] = Some (Some SCmdLine, [[[99]]]).
+Proof. vm_compute. reflexivity. Qed.
+(** the default of an argument defined earlier triggers the conditional default of a later one ... *)
+Example ex_default_triggers_later_rule :
+  entry_summary (get_matches_with 2 (ex_cmd [ex_a; ex_b]) [] ps_new) [98] = Some (Some SDefault, [[[120]]]).
+Proof. vm_compute. reflexivity. Qed.
+(** ... but not of an earlier one: the outcome depends on the definition order *)
+Example ex_default_does_not_trigger_earlier_rule :
+  entry_summary (get_matches_with 2 (ex_cmd [ex_b; ex_a]) [] ps_new) [98] = None.
+Proof. vm_compute. reflexivity. Qed.
+(** a missing-value default: present without a value / with a value *)
+Definition ex_m : arg := (arg_new [109]) <| a_long := Some [109] |> <| a_action := Some ASet |>
+                           <| a_num := Some {| vmin := 0; vmax := 1 |} |> <| a_default_missing := [[77]] |>.
+Example ex_default_missing_applies :
+  entry_summary (get_matches_with 2 (ex_cmd [ex_m]) [[45;45;109]] ps_new) [109] = Some (Some SCmdLine, [[[77]]]).
+Proof. vm_compute. reflexivity. Qed.
+Example ex_default_missing_not_applied :
+  entry_summary (get_matches_with 2 (ex_cmd [ex_m]) [[45;45;109;61;120]] ps_new) [109] = Some (Some SCmdLine, [[[120]]]).
+Proof. vm_compute. reflexivity. Qed.
+Example ex_default_missing_empty_value_given :
+  entry_summary (get_matches_with 2 (ex_cmd [ex_m]) [[45;45;109;61]] ps_new) [109] = Some (Some SCmdLine, [[[]]]).
+Proof. vm_compute. reflexivity. Qed.
